@@ -1038,6 +1038,13 @@ func TestVerifC06(t *testing.T) {
 				{path: "session", sess: st, oob: oob, feed: func(d []byte, _ net.Addr) { st.packetInput(d) },
 					addrs: []net.Addr{gateAddr("server:1")}},
 			}
+			// a dialled session that has neither sent nor received anything yet: the very first datagram it
+			// sees fails the check (a wrong key at the other end, line noise) - still no effect at all
+			fresh, _ := NewConn3(tr.conv+777, gateAddr("server:1"), block, ds, ps, gateNewConn("sink:F"))
+			fresh.SetOOBHandler(oobcb)
+			defer fresh.Close()
+			targets = append(targets, &gateTarget{path: "session-fresh", sess: fresh, oob: oob, feed: func(d []byte, _ net.Addr) { fresh.packetInput(d) },
+				addrs: []net.Addr{gateAddr("server:1")}})
 			if nsess != 2 || len(lt.chAccepts) != 1 {
 				t.Fatalf("%s: target listener not in the intended state (sessions %d, backlog %d)", cfgName, nsess, len(lt.chAccepts))
 			}
@@ -1094,7 +1101,7 @@ func TestVerifC06(t *testing.T) {
 				}
 				t.Logf("%s/%s: setup done at %v, quiesce %v", cfgName, tg.path, tq.Sub(t0), time.Since(tq))
 				src := tr.toServer
-				if tg.path == "session" {
+				if tg.path != "listener" {
 					src = tr.toClient
 				}
 				var cases []gateCase
@@ -1191,7 +1198,7 @@ func TestVerifC06(t *testing.T) {
 					// datagram around the header-size boundary
 					if cs.alwaysLog || rng.intn(len(cases)) < perTarget || (len(cs.wire) >= 10 && len(cs.wire) <= 30 && rng.chance(10)) {
 						force = cs.alwaysLog
-						feedLog(c, block, map[string]string{"session": "S", "listener": "L"}[tg.path], cs.wire, v, b0, b1)
+						feedLog(c, block, map[string]string{"session": "S", "session-fresh": "S", "listener": "L"}[tg.path], cs.wire, v, b0, b1)
 						force = false
 					}
 					// tie for the premise of c06_wire_level on the real stream-like ciphers
